@@ -353,7 +353,10 @@ def _run(case, cfg, w):
         elif k == 'disc_kick':
             _, hi, p, q, ns = op
             sid, qsid = sc.sid(p, ns), sc.sid(q, ns)
-            if not sid or not qsid or p == q:
+            if not sid or not qsid or p == q or not immediate:
+                # (lagged regime: the nested request is published only when
+                # the owning host gets to the first one - an operation whose
+                # flight has no known end when it is issued)
                 continue
             if owner_host[sid] != owner_host[qsid]:
                 nontrivial = True
